@@ -166,3 +166,129 @@ def mc2_ids_are_the_stored_library_labels():
     nb = new(NuclideBase, mcc2id="U-2355", mcc3idEndfbVII0="U235_7", mcc3idEndfbVII1="U235_71")
     assert nb.getMcc2Id() == "U-2355" and nb.getMcc3IdEndfbVII0() == "U235_7" and nb.getMcc3IdEndfbVII1() == "U235_71"
     assert nb.getMcc3Id() == nb.getMcc3IdEndfbVII1()
+
+
+# ------------------------------------------------------------------------------------------ element membership, registration
+def key(n):
+    return (n.a, n.z, n.state)
+
+
+GEN_EL = {"n0": [0, 1, 2], "a0": (230, 236), "s0": [0, 1], "a1": (234, 240), "s1": [0, 1], "a": (228, 242), "s": [0, 1]}
+
+
+@lemma(gen=GEN_EL)
+def element_append_lists_the_isotope_once_and_keeps_the_chain_sorted(n0: int, a0: int, s0: int, a1: int, s1: int, a: int, s: int):
+    """Element.append with 0..2 isotopes already listed (enumerated; mass numbers and states symbolic, list sorted
+    as append leaves it).  Hypothesis (INuclide.__eq__ compares hash((a, z, state))): hashes of different
+    (a, z, state) of the chain differ."""
+    n0 = choose(n0, 0, 2)
+    el = element("U", 92)
+    old = [new(NuclideBase, z=92, a=a0, state=s0), new(NuclideBase, z=92, a=a1, state=s1)][:n0]
+    assume(implies(n0 == 2, (a0, s0) < (a1, s1)))
+    nb = new(NuclideBase, z=92, a=a, state=s)
+    for x in old:
+        assume(implies(key(x) != key(nb), hash(key(x)) != hash(key(nb))))
+    el.nuclides = list(old)
+    el.append(nb)
+    listed = el.nuclides
+    if any(key(x) == key(nb) for x in old):
+        assert len(listed) == n0 and all(same(listed[i], old[i]) for i in range(n0)), "an isotope already listed is not listed twice"
+    else:
+        assert len(listed) == n0 + 1 and sum(1 for x in listed if same(x, nb)) == 1, "the isotope is listed exactly once"
+        assert all(any(same(x, y) for y in listed) for x in old), "nothing listed before is lost"
+    assert all((listed[i].a, listed[i].state) < (listed[i + 1].a, listed[i + 1].state) for i in range(len(listed) - 1)), "sorted by (a, state), no duplicates"
+    assert all(x.z == el.z for x in listed), "every listed isotope has the element's atomic number"
+
+
+# an initially EMPTY directory: the module-level maps of nuclideBases are replaced (in both runs) by these
+DIR_INSTANCES = []
+DIR_BY_NAME = {}
+DIR_BY_DBNAME = {}
+DIR_BY_LABEL = {}
+DIR_BY_MCNP = {}
+DIR_BY_AZS = {}
+URANIUM = new(Element, symbol="U", z=92, name="uranium", nuclides=[])
+PLUTONIUM = new(Element, symbol="PU", z=94, name="plutonium", nuclides=[])
+ELEMENTS_BY_NAME = {"uranium": URANIUM}
+ELEMENTS_PU = {"plutonium": PLUTONIUM}  # one element per table: Element.__eq__ hashes strings / enums (outside the subset)
+DIRECTORY = {
+    "armi.nucDirectory.nuclideBases:instances": "DIR_INSTANCES", "armi.nucDirectory.nuclideBases:byName": "DIR_BY_NAME",
+    "armi.nucDirectory.nuclideBases:byDBName": "DIR_BY_DBNAME", "armi.nucDirectory.nuclideBases:byLabel": "DIR_BY_LABEL",
+    "armi.nucDirectory.nuclideBases:byMcnpId": "DIR_BY_MCNP", "armi.nucDirectory.nuclideBases:byAAAZZZSId": "DIR_BY_AZS",
+    "armi.nucDirectory.elements:byName": "ELEMENTS_BY_NAME",
+}
+
+
+def empty_directory():
+    """(the native run executes many cases in one process: start each from the empty directory)"""
+    for d in (DIR_BY_NAME, DIR_BY_DBNAME, DIR_BY_LABEL, DIR_BY_MCNP, DIR_BY_AZS):
+        d.clear()
+    del DIR_INSTANCES[:]
+    URANIUM.nuclides = []
+    PLUTONIUM.nuclides = []
+
+
+@lemma(overrides=DIRECTORY, gen={"a": [233, 235, 238], "state": [0, 1], "a2": [234, 235, 239], "state2": [0, 1]})
+def constructor_registers_the_nuclide_under_every_identifier_and_its_element(a: int, state: int, a2: int, state2: int):
+    """the REAL NuclideBase constructor (INuclide.__init__, addGlobalNuclide, Element.append) on an initially empty
+    directory, for uranium isotopes a in {233, 235, 238}, a2 in {234, 235, 239}, states 0..1 (enumerated, concrete
+    because the identifiers are dictionary keys): every identifier retrieves that same nuclide, a second nuclide
+    does not disturb the first, an identical one is refused and changes nothing"""
+    a = choose(a, 233, 238)
+    a2 = choose(a2, 234, 239)
+    assume(a in (233, 235, 238) and a2 in (234, 235, 239))
+    state = choose(state, 0, 1)
+    state2 = choose(state2, 0, 1)
+    empty_directory()
+    el = ELEMENTS_BY_NAME["uranium"]
+    nb = NuclideBase(el, a, 235.04, 0.0072, state, 2.2e16)
+    assert nb.z == el.z and same(nb.element, el), "the nuclide belongs to the element with its atomic number"
+    assert len(el.nuclides) == 1 and same(el.nuclides[0], nb), "and is listed by it"
+
+    def retrievable(n):
+        return (same(nuclideBases.byName[n.name], n) and same(nuclideBases.byLabel[n.label], n)
+                and same(nuclideBases.byDBName[n.getDatabaseName()], n) and same(nuclideBases.byMcnpId[n.getMcnpId()], n)
+                and same(nuclideBases.byAAAZZZSId[n.getAAAZZZSId()], n))
+
+    assert retrievable(nb), "every identifier retrieves that same nuclide"
+    assert len(nuclideBases.instances) == 1 and len(nuclideBases.byName) == 1 and len(nuclideBases.byMcnpId) == 1
+    try:
+        other = NuclideBase(el, a2, 238.05, 0.0, state2, 1.4e17)
+        refused = False
+    except ValueError:
+        refused = True
+    assert refused == ((a, state) == (a2, state2)), "a nuclide with the same identifiers is refused, any other accepted"
+    assert retrievable(nb), "the first nuclide is still retrieved by all its identifiers"
+    if refused:
+        assert len(nuclideBases.instances) == 1 and len(nuclideBases.byName) == 1 and len(el.nuclides) == 1, "a refused nuclide leaves no trace"
+    else:
+        assert retrievable(other) and len(nuclideBases.instances) == 2 and len(nuclideBases.byAAAZZZSId) == 2
+        assert len(el.nuclides) == 2 and any(same(x, other) for x in el.nuclides) and any(same(x, nb) for x in el.nuclides)
+
+
+DIRECTORY_PU = {
+    "armi.nucDirectory.nuclideBases:instances": "DIR_INSTANCES", "armi.nucDirectory.nuclideBases:byName": "DIR_BY_NAME",
+    "armi.nucDirectory.nuclideBases:byDBName": "DIR_BY_DBNAME", "armi.nucDirectory.nuclideBases:byLabel": "DIR_BY_LABEL",
+    "armi.nucDirectory.nuclideBases:byMcnpId": "DIR_BY_MCNP", "armi.nucDirectory.nuclideBases:byAAAZZZSId": "DIR_BY_AZS",
+    "armi.nucDirectory.elements:byName": "ELEMENTS_PU",
+}
+
+
+@lemma(overrides=DIRECTORY_PU, gen={"state": [0, 1, 2, 3]})
+def nuclides_with_the_same_label_are_refused_without_a_trace(state: int):
+    """Pu-239 and Pu-139 (any state 0..3, enumerated) have the same 4-character label (two-letter symbol: the hundreds
+    digit of A is dropped) but different names: the second is refused and the directory is unchanged"""
+    state = choose(state, 0, 3)
+    empty_directory()
+    el = ELEMENTS_PU["plutonium"]
+    first = NuclideBase(el, 239, 239.05, 0.0, state, 7.6e11)
+    try:
+        NuclideBase(el, 139, 139.0, 0.0, state, 1.0)
+        refused = False
+    except ValueError:
+        refused = True
+    assert refused, "no two nuclides share a label"
+    assert len(nuclideBases.instances) == 1 and len(nuclideBases.byName) == 1 and len(nuclideBases.byDBName) == 1
+    assert len(nuclideBases.byLabel) == 1 and len(nuclideBases.byMcnpId) == 1 and len(nuclideBases.byAAAZZZSId) == 1
+    assert same(nuclideBases.byLabel[first.label], first) and same(nuclideBases.byName[first.name], first)
+    assert len(el.nuclides) == 1 and same(el.nuclides[0], first)
